@@ -242,6 +242,12 @@ func (pl *LowNodeLoad) processOneNodePool(ctx context.Context, nodePool *desched
 	sortNodesByUsage(abnormalNodes, nodePool.ResourceWeights, false, false)
 	sortNodesByUsage(abnormalProdNodes, nodePool.ResourceWeights, false, true)
 
+	// The nodes above their prod high thresholds are balanced by this pool as well (second pass of
+	// evictPodsFromSourceNodes): a later pool must not balance them again against the unchanged NodeMetric.
+	for _, v := range prodHighNodes {
+		processedNodes.Insert(v.node.Name)
+	}
+
 	evictPodsFromSourceNodes(
 		ctx,
 		nodePool.Name,
